@@ -360,6 +360,20 @@ Model(fmt, v, lines) ==
       [] fmt = "phylip"                   -> PhylipParser(lines)
       [] fmt = "paml"                     -> PamlParser(lines)
 
+(* SOURCE REPRESENTATION of the parse action.  The same records must come from   *)
+(* every way of handing the text to a parser: bytes, str path, Path, list of     *)
+(* lines, generator of lines, an open text handle, and an open text handle whose *)
+(* read position is k > 0 lines into the file (a preamble of k comment lines was *)
+(* consumed with readline()/next() first).  The meaning of the last one is:      *)
+(* parse the REMAINING lines -- a handle at position k is the list of the lines   *)
+(* after the k-th, whatever buffering, encoding or newline translation the       *)
+(* handle does underneath.                                                        *)
+Sources == {"bytes", "str path", "Path", "list of lines", "generator of lines", "text handle", "text handle after k lines"}
+SkipCounts == {1, 2}
+CommentLine(i) == <<"#", SP, "c", Digit[i + 1]>>
+Preamble(k) == [i \in 1..k |-> CommentLine(i)]
+Remaining(lines, k) == SubSeq(lines, k + 1, Len(lines))
+
 (* every text the writer relation allows for the case                          *)
 WrittenTexts(c) == IF c.fmt = "fasta" THEN {FastaLines(c, lay) : lay \in LayoutChoices(c)}
                    ELSE {CanonLines(c)}
@@ -504,6 +518,8 @@ RoundTrip ==
              to   |-> [exp   |-> Exp(case),
                        allowed |-> Allowed(case),
                        allowed_bytes |-> AllowedBytes(case),
+                       \* lines a caller consumes from an open handle before handing it to a parser
+                       preamble |-> Preamble(2), skips |-> SkipCounts,
                        routes |-> IF case.fam = "O" THEN Routes(case.fmt) ELSE {"write"},
                        cls   |-> CaseClass(case),
                        lines |-> CanonLines(case),
@@ -568,6 +584,14 @@ LayoutsSound ==
 CanonIsALayout ==
     (Ready /\ case.fmt = "fasta") =>
         \A i \in 1..Len(case.seqs) : CanonLayout(case)[i] \in Layouts(case.seqs[i], case.block)
+
+(* a handle positioned after the k preamble lines stands for the written text    *)
+(* itself, so every parser model gives the oracle on the clean domain             *)
+HandleAtKIsRemainingLines ==
+    Ready => \A k \in SkipCounts :
+        /\ Remaining(Preamble(k) \o CanonLines(case), k) = CanonLines(case)
+        /\ \A v \in Variants(case.fmt) : Clean(case, v) =>
+               Model(case.fmt, v, Remaining(Preamble(k) \o CanonLines(case), k)) = Ok(Exp(case))
 
 (* the order family really is unsorted, so a writer that sorts is caught          *)
 RECURSIVE LexLess(_, _)
